@@ -884,6 +884,20 @@ ldb_lock_file(const char *filename, ldb_filelock_t **lock) {
 
   ldb_mutex_lock(&file_mutex);
 
+  /* Closing any descriptor of a file drops every fcntl lock this process
+     holds on it, so a file we already hold must be detected before it is
+     opened a second time. */
+  if (stat(filename, &st) == 0) {
+    id.dev = st.st_dev;
+    id.ino = st.st_ino;
+
+    if (rb_set_has(&file_set, &id)) {
+      fd = -1;
+      errno = ENOLCK;
+      goto fail;
+    }
+  }
+
   fd = ldb_open(filename, O_RDWR | O_CREAT, 0644);
 
   if (fd < 0 || fstat(fd, &st) != 0)
